@@ -2,8 +2,9 @@
    Property theorems only: each is closed by [exact] of a lemma proved under Flt/.
    (the model: Flt/FltModel.v evaluator, Flt/FltArchive.v archive codec, Flt/FltParse.v expression parser) *)
 From Coq Require Import List NArith ZArith Strings.Byte.
+From Flocq Require Import IEEE754.Binary IEEE754.Bits.
 From Muscle Require Import Gen.Consts Msg.MsgDefs Msg.MsgModel Flt.FltModel Flt.FltArchive Flt.FltParse
-  Flt.FltProofs Flt.FltArchiveProofs Flt.FltDocProofs Flt.FltNumProofs Flt.FltParseProofs Flt.FltParseStruct.
+  Flt.FltProofs Flt.FltArchiveProofs Flt.FltDocProofs Flt.FltNumProofs Flt.FltParseProofs Flt.FltParseStruct Flt.FltIeee.
 Import ListNotations.
 Local Open Scope N_scope.
 
@@ -72,6 +73,25 @@ Theorem C14_negative_zero_equals_zero :
   (f_ord 11 52 9223372036854775808 0 = OEq /\ f_ord 11 52 0 9223372036854775808 = OEq).
 Proof. exact zeros_equal. Qed.
 Print Assumptions C14_negative_zero_equals_zero.
+
+(* the model's float comparison is the IEEE-754 comparison: it agrees with Flocq's Bcompare on the binary32 / binary64
+   numbers the bit patterns denote, for ALL pairs of bit patterns (b32_of_bits z is FF2B 24 128 (binary_float_of_bits_aux 23 8 z) V
+   for Flocq's validity proof V; stated for every V, which keeps the theorem free of the real-number axioms V's proof uses) *)
+Theorem C14_float_compare_is_ieee754_binary32 : forall x y Vx Vy,
+  x < 2 ^ 32 -> y < 2 ^ 32 ->
+  Bcompare 24 128 (FF2B 24 128 (binary_float_of_bits_aux 23 8 (Z.of_N x)) Vx)
+                  (FF2B 24 128 (binary_float_of_bits_aux 23 8 (Z.of_N y)) Vy)
+  = match f_ord 8 23 x y with OLt => Some Lt | OEq => Some Eq | OGt => Some Gt | OUn => None end.
+Proof. exact f32_ord_is_ieee. Qed.
+Print Assumptions C14_float_compare_is_ieee754_binary32.
+
+Theorem C14_float_compare_is_ieee754_binary64 : forall x y Vx Vy,
+  x < 2 ^ 64 -> y < 2 ^ 64 ->
+  Bcompare 53 1024 (FF2B 53 1024 (binary_float_of_bits_aux 52 11 (Z.of_N x)) Vx)
+                   (FF2B 53 1024 (binary_float_of_bits_aux 52 11 (Z.of_N y)) Vy)
+  = match f_ord 11 52 x y with OLt => Some Lt | OEq => Some Eq | OGt => Some Gt | OUn => None end.
+Proof. exact f64_ord_is_ieee. Qed.
+Print Assumptions C14_float_compare_is_ieee754_binary64.
 
 Theorem C14_infinity_is_top : forall eb mb x,
   f_is_nan eb mb x = false -> f_ord eb mb x (pos_inf eb mb) <> OGt /\ f_ord eb mb x (pos_inf eb mb) <> OUn.
